@@ -35,8 +35,14 @@ type shForeign struct {
 }
 
 type shOp struct {
-	Op  string `json:"op"` // Sign | Reparse | ReparseViaOpen | Verify | Hash | Signatures
+	Op  string `json:"op"` // Sign | SignBoth | Reparse | ReparseViaOpen | Verify | Hash | Signatures
 	Key int    `json:"key,omitempty"`
+	// DelayMs: simulated latency of the signing device (the clock moves on while Sign waits for it)
+	DelayMs int `json:"signer_delay_ms,omitempty"`
+	// SignBoth: this image and the second image of the run are signed by two callers at the same time; Key2 signs the
+	// second image, Sw is the schedule (the signing device is the yield point)
+	Key2 int      `json:"key2,omitempty"`
+	Sw   []Switch `json:"sw,omitempty"`
 }
 
 type signhistEngine struct{}
@@ -108,7 +114,17 @@ func (e *signhistEngine) Gen(seed uint64, tier string, run int) *Trace {
 			if k >= 2 && k <= 3 && r.Chance(2, 3) {
 				k = Pick(r, []int{0, 1}) // the big keys are slow: keep them rare
 			}
-			ops = append(ops, shOp{Op: "Sign", Key: k})
+			op := shOp{Op: "Sign", Key: k}
+			if r.Chance(1, 5) {
+				op.DelayMs = Pick(r, []int{1, 400, 999, 1000, 1100, 2500, 61000})
+			}
+			if c.Other != nil && r.Chance(1, 3) {
+				op.Op, op.Key2 = "SignBoth", Pick(r, []int{0, 1, 8, 21})
+				for y := r.Intn(2); y < 6; y += 1 + r.Intn(2) {
+					op.Sw = append(op.Sw, Switch{Yield: y, Next: 0})
+				}
+			}
+			ops = append(ops, op)
 			signed = true
 		case 1:
 			ops = append(ops, shOp{Op: "Reparse"})
@@ -174,8 +190,13 @@ func shExec(c shCfg, ops []shOp, x *X) {
 	// the bystander
 	var other *authenticode.PECOFFBinary
 	var otherHash, otherBytes []byte
+	var st2 *shState
 	if c.Other != nil {
 		ob := buildPE(c.Other)
+		if pe2, _, err := refPECertTable(ob); err == nil {
+			st2 = &shState{orig: ob, dirOff: pe2.CertDirOff, origData: ob}
+			st2.refHash, _ = refPEDigest(ob, true)
+		}
 		other, err = authenticode.Parse(&SimReader{data: ob})
 		if err != nil {
 			x.Fail("signhist.parse_well_formed", -1, "Parse", "well-formed image (the second one of this run) rejected: %v", err)
@@ -191,6 +212,10 @@ func shExec(c shCfg, ops []shOp, x *X) {
 	bystander := func(i int, kind string) bool {
 		if other == nil {
 			return true
+		}
+		if st2 != nil && len(st2.signers) > 0 {
+			// it has been signed in the meantime (by the second caller): it is judged like the first image
+			return shCheck(x, i, kind+"(second image)", st2, other)
 		}
 		if h := other.Hash(crypto.SHA256); !bytes.Equal(h, otherHash) {
 			x.Fail("signhist.other_image_untouched", i, kind, "a second image parsed before the history began now hashes to %x, before to %x; nothing was done to it", h, otherHash)
@@ -241,9 +266,39 @@ func shExec(c shCfg, ops []shOp, x *X) {
 		func() {
 			defer func() { pv = recover() }()
 			switch op.Op {
+			case "SignBoth":
+				if other == nil || st2 == nil {
+					return
+				}
+				pk, pk2 := Pool()[op.Key%poolSize], Pool()[op.Key2%poolSize]
+				plane := NewPlane(nil)
+				sched := NewSched(x, 2, op.Sw)
+				plane.yield = sched.Yield
+				var err1, err2 error
+				sched.Run([]func(){
+					func() { _, err1 = bin.Sign(&SimSigner{inner: pk.Key, p: plane}, pk.Cert) },
+					func() { _, err2 = other.Sign(&SimSigner{inner: pk2.Key, p: plane}, pk2.Cert) },
+				})
+				plane.yield = nil
+				x.Logf("op %d SignBoth(k%d on this image, k%d on the second image; %d switches) -> err=%v / %v", i, op.Key, op.Key2, len(sched.Switches), err1, err2)
+				if err1 != nil || err2 != nil {
+					x.Fail("signhist.sign_succeeds", i, "SignBoth", "signing two well-formed images at the same time with healthy keys failed: %v / %v", err1, err2)
+					return
+				}
+				st.signers = append(st.signers, op.Key%poolSize)
+				st2.signers = append(st2.signers, op.Key2%poolSize)
+				nsign++
+				x.Probe("two_images_signed_at_the_same_time")
 			case "Sign":
 				pk := Pool()[op.Key%poolSize]
-				sig, err := bin.Sign(pk.Key, pk.Cert)
+				var signer crypto.Signer = pk.Key
+				if op.DelayMs > 0 {
+					if time.Now().Add(time.Duration(op.DelayMs) * time.Millisecond).Before(simMaxInstant) {
+						signer = &SimSigner{inner: pk.Key, p: NewPlane(nil), Delay: time.Duration(op.DelayMs) * time.Millisecond}
+						x.Probe("slow_signing_device")
+					}
+				}
+				sig, err := bin.Sign(signer, pk.Cert)
 				x.Logf("op %d Sign(k%d) -> %d bytes err=%v", i, op.Key, len(sig), err)
 				if err != nil {
 					x.Fail("signhist.sign_succeeds", i, "Sign", "signing a well-formed image with a healthy key failed: %v", err)
